@@ -58,10 +58,26 @@ def agree(spec):
     except Exception as ex:  # noqa: BLE001
         return {"spec": spec, "trace": equiv.merge("C16_Agree", False, [], [], {"no_exception_" + type(ex).__name__: False}), "active": nact}
     scale = 1.0 + abs(rex.fun)
+    # accuracy of the differencing scheme itself: the finite-difference gradient carried by the result vs the exact one
+    gex = np.asarray(p.grad(rfd.x), float)
+    gscale = 1.0 + float(np.max(np.abs(gex)))
+    if mode in ("none", "2-point"):
+        h = kw.get("eps", 1e-8) if mode == "none" else (kw.get("finite_diff_rel_step") or 1.5e-8)
+        gtol_fd = 300.0 * h + 5e-6
+    elif mode == "3-point":
+        h = kw.get("finite_diff_rel_step") or 6.1e-6
+        gtol_fd = 1e3 * h * h + 5e-9
+    else:
+        h = 1.0
+        gtol_fd = 1e-10
+    if mode != "cs":      # truncation error of the scheme + round-off of the differences, eps*|f|/h
+        gtol_fd += 200.0 * np.finfo(float).eps * (1.0 + abs(rfd.fun)) / h
+    gerr = float(np.max(np.abs(np.asarray(rfd.jac, float) - gex)) / gscale)
     f = {"fun_matches_exact_gradient_solution": bool(abs(rfd.fun - rex.fun) <= TOL[mode] * scale),
+         "gradient_accurate_for_the_scheme": bool(gerr <= gtol_fd),
          "x_in_box": bool(np.all(p.lb <= rfd.x) and np.all(rfd.x <= p.ub))}
     return {"spec": spec, "trace": equiv.merge("C16_Agree", False, [], [], f), "active": nact,
-            "diff": float(abs(rfd.fun - rex.fun) / scale)}
+            "diff": float(abs(rfd.fun - rex.fun) / scale), "gerr_over_tol": gerr / gtol_fd}
 
 
 def agree_specs(ctx):
@@ -73,6 +89,15 @@ def agree_specs(ctx):
                     "pseed": int(rng.integers(1 << 30)), "jac": mode, "cond": float(10 ** rng.uniform(0, 3)),
                     "box_kinds": ["lo", "up", "box", "box", "free"], "start": ["face", "vertex", "interior"][i % 3],
                     "kwargs": {"maxcor": int(rng.choice([3, 10])), "ftol": 0.0, "gtol": 1e-6, "maxiter": 400, "maxfun": 20000}})
+        if i % 5 == 4:
+            out[-1]["far_start"] = float(rng.choice([2e3, 2e4]))
+            out[-1]["box_kinds"] = ["up", "up", "free"]
+            if mode in ("2-point", "3-point"):
+                out[-1]["kwargs"]["finite_diff_rel_step"] = float(rng.choice([1e-5, 1e-6]))
+        if mode == "none" and i % 8 == 0:
+            out[-1]["kwargs"]["eps"] = float(rng.choice([1e-6, 1e-7]))
+        elif mode in ("2-point", "3-point") and i % 8 in (1, 2):
+            out[-1]["kwargs"]["finite_diff_rel_step"] = float(rng.choice([1e-5, 1e-6]))
     return out
 
 
@@ -90,6 +115,7 @@ def run(ctx):
     ctx.add_counts(evaluations=len(res), distinct_nontrivial=sum(1 for r in res if r["active"] > 0))
     ctx.cov["fd_vs_exact_max_rel_diff"] = {m: max([r.get("diff", 0.0) for r in res if r["spec"]["jac"] == m] or [0.0]) for m in TOL}
     ctx.cov["fd_vs_exact_with_active_bounds"] = sum(1 for r in res if r["active"] > 0)
+    ctx.cov["fd_gradient_error_over_tolerance_max"] = {m: max([r.get("gerr_over_tol", 0.0) for r in res if r["spec"]["jac"] == m] or [0.0]) for m in TOL}
     return ctx.finish("model_checking", RULE)
 
 
